@@ -446,6 +446,18 @@ fn gen_conf_link(t: &mut Tape, lp: &LinkParams, o: &ConfOpts, n_hbf: usize, labe
                     cf.continuation = true;
                     cur.words.push(tdh(&cf));
                     cur.frame_of_word.push(frame_idx);
+                    // a calibration word is legal at the start of the data of ANY page, also a continuation page
+                    if t.chance(1, 5) {
+                        if t.chance(1, 3) {
+                            cdw_user = t.u64() & 0xFFFF_FFFF_FFFF;
+                            cdw_index = 0;
+                        } else {
+                            cdw_index = cdw_index.wrapping_add(1) & 0xFF_FFFF;
+                        }
+                        cur.words.push(cdw(cdw_user, cdw_index));
+                        cur.frame_of_word.push(usize::MAX);
+                        labels.push("cdw_on_continuation_page".into());
+                    }
                 }
             }
             let end = (packets.len(), cur.words.len() - 1);
@@ -710,6 +722,9 @@ pub struct FrameOpts {
     pub all_rdh0_valid: bool,
     /// two thirds of the raw payloads between 4 000 and 10 000 bytes (streams that outgrow the reader's 50 KiB buffer)
     pub mostly_large: bool,
+    /// 101..=140 packets whose raw payloads all lie between 8 300 and 10 000 bytes: every internal batch of 100 packets
+    /// carries close to the largest amount of payload the format allows
+    pub near_max: bool,
 }
 
 impl Default for FrameOpts {
@@ -722,6 +737,7 @@ impl Default for FrameOpts {
             its_first: false,
             all_rdh0_valid: false,
             mostly_large: false,
+            near_max: false,
         }
     }
 }
@@ -805,7 +821,10 @@ pub fn gen_frame_stream(t: &mut Tape, o: &FrameOpts) -> (Stream, Vec<String>) {
         5 => 300,
         _ => 100,
     };
-    let n = n.min(o.max_packets.max(1));
+    let n = if o.near_max { 101 + t.below(40) } else { n.min(o.max_packets.max(1)) };
+    if o.near_max {
+        labels.push("batches_near_max_payload".into());
+    }
     let sys0 = if o.its_first || t.chance(2, 3) { 0x20 } else { *t.pick(&KNOWN_SYSTEM_IDS) };
     let version0 = *t.pick(&[7u8, 6, 3, 100, 8]);
     let fmt_mode = t.below(3); // 0: all fmt0, 1: all fmt2, 2: mixed
@@ -875,7 +894,7 @@ pub fn gen_frame_stream(t: &mut Tape, o: &FrameOpts) -> (Stream, Vec<String>) {
         }
         let mut p = Packet::new(r);
         if o.word_payload {
-            let nw = match t.weighted(&[8, 24, 8, 1]) {
+            let nw = match if o.near_max { 3 } else { t.weighted(&[8, 24, 8, 1]) } {
                 0 => 0,
                 1 => 1 + t.below(8),
                 2 => 1 + t.below(60),
@@ -912,7 +931,9 @@ pub fn gen_frame_stream(t: &mut Tape, o: &FrameOpts) -> (Stream, Vec<String>) {
                 }
             }
         } else {
-            let len = if o.mostly_large && t.chance(2, 3) {
+            let len = if o.near_max {
+                8_300 + t.below(1_701)
+            } else if o.mostly_large && t.chance(2, 3) {
                 4_000 + t.below(6_001)
             } else {
                 match t.weighted(&[3, 2, 6, 1, 1]) {
@@ -923,7 +944,7 @@ pub fn gen_frame_stream(t: &mut Tape, o: &FrameOpts) -> (Stream, Vec<String>) {
                 _ => t.below(o.max_payload + 1),
                 }
             }
-            .min(o.max_payload);
+            .min(if o.near_max { 10_000 } else { o.max_payload });
             p.raw = Some(if len <= 32 { t.bytes(len) } else { t.bytes_cheap(len) });
         }
         p.fix_sizes();
